@@ -192,7 +192,7 @@ def xpast (h : String) : String :=
   | none => "err BadArg"
   | some s =>
     match Parse.parseFull s with
-    | .ok (_, e, _) => "ok " ++ Hex.enc (showAst e).toUTF8.toList
+    | .ok (_, e, _) => "ok " ++ Hex.enc (unbstr (showAst e))
     | .error (.lex _) => "err Lex"
     | .error .fuel => "err Fuel"
     | .error .parse => "err Parse"
@@ -224,7 +224,7 @@ def exprOf (exprH astH : String) : Except String Expr :=
       if astH == "-" then .ok e else
       match (Hex.dec astH).bind parseAst with
       | none => .error "err BadAst"
-      | some e2 => if showAst e == showAst e2 then .ok e else .error ("err AstMismatch " ++ Hex.enc (showAst e).toUTF8.toList)
+      | some e2 => if showAst e == showAst e2 then .ok e else .error ("err AstMismatch " ++ Hex.enc (unbstr (showAst e)))
 
 def run (mask : Nat) (ctx exprH astH dumpH : String) (findOnly : Bool) : String :=
   match ctx.toNat?, Hex.dec dumpH with
